@@ -229,6 +229,7 @@ package tcp
 //@   requires e != nil
 //@   ensures len(result) <= maxOptionSize && len(result) % 4 == 0 && len(result) >= 0
 //@   ensures implies(!e.sendTSOk && !(e.sackPermitted && len(sackBlocks) > 0), len(result) == 0)
+//@   ensures len(result) == ite(e.sendTSOk, 12, 0) + ite(e.sackPermitted && len(sackBlocks) > 0, 4 + 8 * imin(imin(len(sackBlocks), 4), ite(e.sendTSOk, 3, 4)), 0)
 //@   ensures implies(e.sendTSOk, len(result) >= 12 && result[0] == 1 && result[1] == 1 && result[2] == 8 && result[3] == 10 && be32(result, 8) == uint32(e.recentTS))
 
 // sendRaw emits exactly one segment with the given flags, sequence and acknowledgement numbers
@@ -267,6 +268,24 @@ package tcp
 //@ func (*endpoint).resetKeepaliveTimer props C05 C04
 //@   requires e != nil && e.keepalive.timer.timer != nil
 //@   modifies e.keepalive.unacked, e.keepalive.timer.state, e.keepalive.timer.target, e.keepalive.timer.runtimeTarget
+
+// optMax(e): the longest option block a post-handshake segment of e can carry (timestamps,
+// and SACK blocks when SACK was negotiated).
+//@ define optMax(e) = ite(e.sendTSOk, 12, 0) + ite(e.sackPermitted, ite(e.sendTSOk, 28, 36), 0)
+
+// C04 (path MTU): after an MTU update the payload limit leaves room for the TCP header and the
+// longest option block, so that header + options + payload fit the MTU (at least one byte of
+// payload is always allowed); the limit is only ever lowered.
+//@ func (*sender).updateMaxPayloadSize props C04
+//@   requires sndOK(s) && -(1 << 40) <= mtu && mtu <= 1 << 40 && 0 <= count && count <= 1 << 40 && 0 <= s.outstanding && s.outstanding <= 1 << 40 && s.sndCwnd <= 1 << 40
+//@   panics_when true
+//@   ensures s.maxPayloadSize <= imax(1, mtu - header.TCPMinimumSize - optMax(s.ep))
+//@   ensures s.maxPayloadSize == old(s.maxPayloadSize) || s.maxPayloadSize == imax(1, mtu - header.TCPMinimumSize - optMax(s.ep))
+//@   modifies modset(NETSEND), s.maxPayloadSize
+//@   modifies s.sndCwnd, s.outstanding, s.sndNxt, s.writeNext, s.writeList.tail, s.lastSendTime, s.rttMeasureTime, s.maxSentAck
+//@   modifies s.resendTimer.state, s.resendTimer.target, s.resendTimer.runtimeTarget, s.ep.rcv.rcvAcc
+//@   modifies s.ep.keepalive.unacked, s.ep.keepalive.timer.state, s.ep.keepalive.timer.target, s.ep.keepalive.timer.runtimeTarget
+//@   modifies structfamily(segment)
 
 // C04: every data segment handed to sendSegment is at most maxPayloadSize bytes (the peer's MSS
 // as negotiated) and ends at or before the right edge sndUna+sndWnd of the peer's window
